@@ -194,8 +194,8 @@ func (i Int16) ExponentiateInt16(other Int16) Int16 {
 		return 1
 	}
 	result := i
-	var j Int16
-	for j = 2; j <= other; j++ {
+	// count down: an upward counter of the same type wraps around when `other` is the type's maximum
+	for j := other; j >= 2; j-- {
 		result *= i
 	}
 	return result
